@@ -338,4 +338,35 @@ theorem store_frac_wf {c : ZoneCfg} {hints : Nat} {s : Bytes} {v : DtVal} (h : s
   obtain ⟨z, sh, hf, _⟩ := store_ok_parts h
   exact fraction_wf hf
 
+/-! ## bounds of the stored instant -/
+
+theorem atoi_range (s : Bytes) : -(2 ^ 31 : Int) ≤ atoi s ∧ atoi s < 2 ^ 31 := by
+  simp only [atoi, toInt32]; omega
+
+theorem timegm_bound (tm : Tm) (hy : -(2 ^ 31 : Int) ≤ tm.year ∧ tm.year < 2 ^ 31) (hm : 1 ≤ tm.mon ∧ tm.mon ≤ 12) (hd : 1 ≤ tm.mday ∧ tm.mday ≤ 31)
+    (hh : -(2 ^ 31 : Int) ≤ tm.hour ∧ tm.hour ≤ 23) (hmi : -(2 ^ 31 : Int) ≤ tm.min ∧ tm.min ≤ 59) (hs : -(2 ^ 31 : Int) ≤ tm.sec ∧ tm.sec ≤ 60) :
+    -(2 ^ 62 : Int) < timegm tm ∧ timegm tm < 2 ^ 62 := by
+  obtain ⟨y, mo, d, h, mi, se⟩ := tm
+  simp only at hy hm hd hh hmi hs
+  have hdays : -(800000000000 : Int) < daysFromCivil y mo d ∧ daysFromCivil y mo d < 800000000000 := by
+    simp only [daysFromCivil]
+    split <;> split <;> omega
+  simp only [timegm]
+  omega
+
+theorem zoneShift_bound (a : Bool) (z : Bytes) (sh : Int) (h : zoneShiftWith ⟨a, true⟩ z = .ok sh) : -86400 < sh ∧ sh < 86400 := by
+  simp only [zoneShiftWith, Bool.true_and] at h
+  split at h
+  · cases h; omega
+  · split at h
+    · cases h
+    · split at h
+      · cases h
+      · split at h
+        · cases h
+        · rename_i h1 _ h2
+          simp only [Bool.or_eq_true, decide_eq_true_eq, not_or, Int.not_lt] at h1 h2
+          cases h
+          constructor <;> split <;> omega
+
 end LyModel.Val.DateTime
